@@ -52,8 +52,8 @@ type hbCell struct {
 
 type hbState struct {
 	cells  map[uintptr]*hbCell
-	objs   map[any]*vclock   // locks, pools, waitgroups, closed channels, atomics (by address)
-	queues map[any][]vclock  // buffered channels: one clock per queued item
+	objs   map[any]*vclock  // locks, pools, waitgroups, closed channels, atomics (by address)
+	queues map[any][]vclock // buffered channels: one clock per queued item
 	seen   map[string]bool
 }
 
